@@ -734,6 +734,43 @@ def check_handoff(ck, prog, handoff, cls, STATE, NOTIFY, C):
                     bad = [x for x in ctx.cfg.return_blocks() if x in r]
                     ck.ob("C02.7", f"cleared-RW-wakes-all-readers|{cev}->{cn}", bool(rb_) and not bad, fn=handoff, site=ctx.site(bb),
                           detail="READERS_WAITING was cleared but a path returns without futex_wake(state, i32::MAX)")
+    # A hand-off CAS whose expected value does not have BOTH waiting bits set can fail while the lock is still unlocked
+    # (the other kind of waiter arrived in between): its failure edge must lead to a fresh look at the state (another
+    # `state == <const>` test) before any return.  Only a CAS expecting both bits may treat failure as "got locked".
+    both = RWAIT | WWAIT
+    for (p, bb), (k, op, c) in cls.items():
+        if p != handoff or not op.op.startswith("compare_exchange"):
+            continue
+        ce = const_values_deep(op.args[0], ctx.prov) or dominating_eq_const(ctx, bb, op.args[0])
+        if ce is None:
+            continue
+        ces = ce if isinstance(ce, set) else {ce}
+        if all((cev & both) == both for cev in ces):
+            continue
+        if all(cev == RWAIT for cev in ces):
+            continue   # last stage (readers only): nothing else left to hand over to
+        errs = err_edges_of(ctx, bb)
+        # is_ok()/is_err() forms
+        for sb in ctx.cfg.live_blocks():
+            if ctx.cfg.term(sb)["k"] != "switch":
+                continue
+            for e in ctx.cfg.succ[sb]:
+                for f in ctx.edge_facts(e):
+                    if f[0] == "variant" and f[2] == "Err" and isinstance(f[1], tuple) and f[1][0] == "call" and f[1][3] == bb and e not in errs:
+                        errs.append(e)
+        cut = set()
+        for sb in ctx.cfg.live_blocks():
+            if ctx.cfg.term(sb)["k"] != "switch":
+                continue
+            for e in ctx.cfg.succ[sb]:
+                for f in ctx.edge_facts(e):
+                    if f[0] == "cmp" and f[1] in ("Eq", "Ne") and any(fold(z) is not None and fold(z) & both for z in (f[2], f[3])):
+                        cut.add((e.src, e.dst))
+        for e in errs:
+            r = ctx.cfg.reachable_from(e.dst, avoid_edges=cut)
+            bad = [x for x in ctx.cfg.return_blocks() if x in r]
+            ck.ob("C02.7", f"failed-handoff-reexamines-state|{sorted(ces)}", not bad, fn=handoff, site=ctx.site(bb),
+                  detail="this hand-off CAS can fail while the lock is still unlocked (the other kind of waiter set its bit in between); returning on that failure wakes nobody: every sleeper stays asleep (lost wake-up). The failure edge must re-examine the new state")
     ck.floor("C02.7", "CAS clearing WRITERS_WAITING", n_clear_w, 2)
     ck.floor("C02.7", "CAS clearing READERS_WAITING", n_clear_r, 1)
     # After a hand-off CAS that clears WRITERS_WAITING but leaves READERS_WAITING set, every path to `return` either
